@@ -166,6 +166,11 @@ func (i *interpreter) global(fr *frame, g *ssa.Global) *value {
 		w.sharedGlobals[g] = c
 		return c
 	}
+	if sv, ok := i.specialGlobal(g); ok {
+		c := &sv
+		i.globals[g] = c
+		return c
+	}
 	if pol == 0 && !globalReadable(g) {
 		panic(unsupported("read of global of uninitialised package: " + g.String()))
 	}
